@@ -14,8 +14,10 @@ PROPS = {
     "C08": dict(
         modules=["Gopki.Props.C08"],
         theorems=['Merge.C08_merge_eq_spec', 'Merge.C08_no_shared_oid', 'Merge.C08_empty_profile', 'Merge.C08_override_needed_fails'],
-        ops=["merge"],
-        rule="merge: exhaustive profile lists (<=2 quick, <=3 thorough) x certificate lists <=3 over 2 OIDs x 2 bodies x optional x override, "
+        ops=["merge", "pki", "hist"],
+        rule="pki/hist (the merged list reaches the certificate, also when an entity is re-issued in a later run): forests and histories in which a third of the entities have a profile with optional / override extensions; "
+             "clause: the certificate of an entity with a profile carries the model's merged extension list; non-trivial = a profile is present; "
+             "merge: exhaustive profile lists (<=2 quick, <=3 thorough) x certificate lists <=3 over 2 OIDs x 2 bodies x optional x override, "
              "then random lists up to 8+8 over 14 real v1 extension values; a case is non-trivial when a profile extension shares an OID with a "
              "certificate extension; distinct = distinct input JSON",
         exhaustive={"quick": True, "thorough": True},
@@ -103,7 +105,7 @@ PROPS = {
         assumptions=[],
     ),
     "C10": dict(
-        modules=['Gopki.Props.C10'], theorems=['Conv.second_run_noop', 'Conv.no_reason_noop', 'C10.C10_install_touches_one', 'C10.C10_install_keeps_configs', 'C11.C11_no_flags_no_regen'], ops=['hist'],
+        modules=['Gopki.Props.C10', 'Gopki.Model.Fs'], theorems=['Conv.second_run_noop', 'Conv.no_reason_noop', 'C10.C10_install_touches_one', 'C10.C10_install_keeps_configs', 'C11.C11_no_flags_no_regen', 'Fs.write_frame', 'Fs.delete_frame'], ops=['hist', 'fsops'],
         rule="hist: forests of 1-4 entities, a first default run, then 1-5 (thorough 1-9) steps drawn from {edit config, delete/truncate/strip-block/replace artifact, touch config, run with one of 12 flag sets, run with an injected write fault (error / torn prefix / death after write)}, "
              "then a default run (convergence evaluated) and another default run (must be a no-op); every run is replayed on the model from the directory observed before it; non-trivial = at least three runs",
         modelled=['modelled, not verified: encoding/asn1 marshalling (Gopki.Base.Asn1 / Gopki.Model.Generator), encoding/pem, encoding/json (Gopki.Model.Hash), io/fs walk order, MapFS, YAML/JSON-schema front end (identity)', 'signature mathematics and key generation: oracle inputs; verification done by the harness with crypto/ecdsa, crypto/rsa and the keybase brainpool curves'],
@@ -139,8 +141,9 @@ PROPS = {
         assumptions=[],
     ),
     "C15": dict(
-        modules=['Gopki.Props.C15', 'Gopki.Abs.Conv4'], theorems=['Conv.grun_sinv', 'Conv.opWrite_sinv', 'Conv.converge_after_any_history', 'Conv.second_run_noop'], ops=['hist'],
-        rule="hist: forests of 1-4 entities, a first default run, then 1-5 (thorough 1-9) steps drawn from {edit config, delete/truncate/strip-block/replace artifact, touch config, run with one of 12 flag sets, run with an injected write fault (error / torn prefix / death after write)}, "
+        modules=['Gopki.Props.C15', 'Gopki.Abs.Conv4', 'Gopki.Model.Fs'], theorems=['Conv.grun_sinv', 'Conv.opWrite_sinv', 'Conv.converge_after_any_history', 'Conv.second_run_noop', 'Fs.write_read', 'Fs.write_frame', 'Fs.delete_read', 'Fs.delete_frame'], ops=['hist', 'fsops'],
+        rule="fsops: the native file-system layer (NewNativeFs on a scratch directory) against the abstract directory of Gopki.Model.Fs: every ordered pair of 11 content lengths written to the same file, and 300 (thorough 6000) random sequences of write/delete/stat incl. absolute names; after every step the whole directory is compared; non-trivial = an existing file was overwritten; "
+             "hist: forests of 1-4 entities, a first default run, then 1-5 (thorough 1-9) steps drawn from {edit config, delete/truncate/strip-block/replace artifact, touch config, run with one of 12 flag sets, run with an injected write fault (error / torn prefix / death after write)}, "
              "then a default run (convergence evaluated) and another default run (must be a no-op); every run is replayed on the model from the directory observed before it; non-trivial = at least three runs",
         modelled=['modelled, not verified: encoding/asn1 marshalling (Gopki.Base.Asn1 / Gopki.Model.Generator), encoding/pem, encoding/json (Gopki.Model.Hash), io/fs walk order, MapFS, YAML/JSON-schema front end (identity)', 'signature mathematics and key generation: oracle inputs; verification done by the harness with crypto/ecdsa, crypto/rsa and the keybase brainpool curves'],
         assumptions=[],
